@@ -223,6 +223,33 @@ def run(R):
                 g = P.fns.get(ck)
                 if g:
                     clos.append(g)
+        # ... and what those closures (or the arm itself) hand the operator to: a helper such as `checked_int_arithmetic(op, x, y)`
+        seen_k = set(g.key for g in clos)
+        frontier = list(clos)
+        arm_calls = [c for c in f.calls if c.bb in areg]
+        for c in arm_calls:
+            for k2 in P.callee_keys(f, c):
+                g2 = P.fns[k2]
+                if g2.file == f.file and g2.key != f.key and k2 not in seen_k and not g2.derived:
+                    seen_k.add(k2)
+                    clos.append(g2)
+                    frontier.append(g2)
+        for _ in range(2):
+            nxt = []
+            for g in frontier:
+                for c in g.calls:
+                    for k2 in P.callee_keys(g, c):
+                        g2 = P.fns[k2]
+                        if g2.file == f.file and g2.key != f.key and k2 not in seen_k and not g2.derived:
+                            seen_k.add(k2)
+                            clos.append(g2)
+                            nxt.append(g2)
+                for g2 in P.children.get(g.key, []):
+                    if g2.key not in seen_k:
+                        seen_k.add(g2.key)
+                        clos.append(g2)
+                        nxt.append(g2)
+            frontier = nxt
         int_ok = float_ok = False
         for g in clos:
             sws = A.enum_switches(g, "model::ArithmeticOperator")
